@@ -265,6 +265,9 @@ pub fn run(ctx: &Ctx) {
             }
             for stateless in [false, true] {
                 cfgs.push((si, b, stateless, "NN"));
+                if b == Backend::Default {
+                    cfgs.push((si, b, stateless, if stateless { "N" } else { "K" }));
+                }
             }
         }
     }
